@@ -55,6 +55,7 @@ func (w *World) runLevel(g *Grammar, fn *ssa.Function, tok int64, name string) [
 	}
 	tokIdx := fieldIndex(g.ScannerT, g.TokField)
 	nameIdx := fieldIndex(g.ScannerT, g.NameField)
+	levelPrefixIdx = w.scannerFieldIdx(g).prefix
 	seq := 0
 	var hooks AHooks
 	hooks.Call = func(ai *AInterp, st *AState, site ssa.CallInstruction, callee *ssa.Function, args []AVal) (bool, AVal) {
@@ -126,6 +127,9 @@ func (w *World) runLevel(g *Grammar, fn *ssa.Function, tok int64, name string) [
 
 const firstOperandDone = 100001
 
+// levelPrefixIdx: index of the scanner's prefix field (set by runLevel).
+var levelPrefixIdx = -1
+
 // setTokenOnce: the first time, put the token under test into the scanner.
 func (w *World) setTokenOnce(st *AState, args []AVal, scannerField, tokIdx, nameIdx int, tok int64, name string) bool {
 	for _, a := range args {
@@ -148,6 +152,10 @@ func (w *World) setTokenOnce(st *AState, args []AVal, scannerField, tokIdx, name
 		so.Fields[tokIdx] = aInt(tok)
 		if name != "" {
 			so.Fields[nameIdx] = aStr(name)
+			// an operator name is an unprefixed name
+			if levelPrefixIdx >= 0 {
+				so.Fields[levelPrefixIdx] = aStr("")
+			}
 		} else {
 			so.Fields[nameIdx] = aUnknown(nil)
 		}
@@ -168,6 +176,9 @@ func (w *World) forgetToken(st *AState, args []AVal, scannerField, tokIdx, nameI
 				so := st.obj(sp.Obj)
 				so.Fields[tokIdx] = aUnknown(nil)
 				so.Fields[nameIdx] = aUnknown(nil)
+				if levelPrefixIdx >= 0 {
+					so.Fields[levelPrefixIdx] = aUnknown(nil)
+				}
 				return
 			}
 		}
@@ -250,6 +261,7 @@ func (g *Grammar) levelShapeAI(w *World, fn *ssa.Function) *Level {
 	rights := map[*ssa.Function]bool{}
 	any := false
 	for _, in := range inputs {
+		recognised, passedOver := 0, 0
 		for _, evs := range w.runLevel(g, fn, in.tok, in.name) {
 			// first operand, then (for a recognised operator) consume, right operand, opnode
 			var first, firstOp *levelEvent
@@ -296,8 +308,12 @@ func (g *Grammar) levelShapeAI(w *World, fn *ssa.Function) *Level {
 			}
 			lv.Operand = first.Callee
 			if firstOp == nil {
+				if evs[len(evs)-1].Kind == "return" {
+					passedOver++
+				}
 				continue
 			}
+			recognised++
 			any = true
 			rec := OpRecog{Tok: in.tok}
 			if in.name != "" {
@@ -327,6 +343,13 @@ func (g *Grammar) levelShapeAI(w *World, fn *ssa.Function) *Level {
 			if !consumed {
 				problems["the operator token is not consumed before the right operand is parsed"] = true
 			}
+		}
+		if recognised > 0 && passedOver > 0 {
+			what := g.tokName(in.tok)
+			if in.name != "" {
+				what = fmt.Sprintf("the name %q", in.name)
+			}
+			problems[fmt.Sprintf("%s after an operand is taken as this level's operator on some paths and passed over on others: whether it is an operator depends on something besides the token (what follows it, a flag of the scanner), so part of an expression can be silently dropped", what)] = true
 		}
 	}
 	if !any {
